@@ -17,15 +17,6 @@ import PolyVerif.Model.Solids
 namespace PolyVerif.SolidsOracle
 open PolyVerif PolyVerif.Solids
 
-/-! ## admissibility of the cylinder (NOT in `Solids.lean` yet — reported to the C18 builder)
-
-  circle.go:24-26 (commit fc0d720 "fix: Circle rejects fewer than 3 sides instead of emitting an index of -1"):
-  `Circle.ToMesh` panics when `Sides < 3`.  `Cylinder.ToMesh` itself does not check `Sides`, but it calls
-  `Circle.ToMesh` once per cap that is present, so it panics iff `Sides < 3` and at least one cap is generated. -/
-
-def cylinderAdmissible (sides : Nat) (noTop noBottom : Bool) : Bool :=
-  decide (3 ≤ sides) || (noTop && noBottom)
-
 /-! ## fast closedness -/
 
 /-- strictly increasing ⇒ sorted without duplicates -/
